@@ -78,6 +78,15 @@ def state8(index, rep):
     files = [f"src/food_system/{m}.py" for m in ("outdoor_crops", "greenhouses", "seafood", "meat_and_dairy", "feed_and_biofuels", "methane_scp",
                                                   "cellulosic_sugar", "seaweed", "stored_food")]
     hidden_state_rules(index, rep, "C08.STATE", files, "a supply series handed to the optimiser")
+    # two series of one object are two arrays: one bound to the other without a copy and then changed in place changes both
+    from .memo import attribute_alias_writes
+    hits = attribute_alias_writes(index, files)
+    for rel, fn, st, a_, b_ in hits:
+        rep.violation("C08.STATE", f"{fn.name}: self.{a_} is self.{b_}",
+                      f"`{norm_src(st)[:80]}` changes self.{a_} in place, and self.{a_} was bound to self.{b_} itself (no copy): self.{b_} - a "
+                      "series other code still reads as it was - is rewritten with it", loc=loc(rel, st))
+    if not hits:
+        rep.ok("C08.STATE", "no series of a supply object is changed in place through another attribute bound to the same array")
 
 
 def K_(path, idx=None):
